@@ -117,6 +117,10 @@ def parse_vc(path):
                 spec_kind[0] = key[1:]
                 spec_kind[1] = arg.strip()
                 continue
+            if key == "@derived":
+                close_section()
+                specs.append(("derived", arg.strip(), ""))
+                continue
             if key == "@const":
                 close_section()
                 specs.append(("const", arg.strip(), ""))
@@ -909,6 +913,16 @@ def build_unit(idx, vc_verify, vc_trusted, spec_files, verif_root, only_fns=None
     em.add(MOD_USES)
     em.add(open(os.path.join(verif_root, "prelude", "base.rs")).read())
     for (f, (kind, arg, text)) in all_specs:
+        if kind == "derived":
+            # `@derived <type path> Trait..`: the trusted specs of derived impls are only valid if the real type derives them
+            a = arg.split()
+            mod, ty = a[0].rsplit("::", 1)
+            for tr in a[1:]:
+                full = {"PartialEq": "core :: cmp :: PartialEq", "Default": "core :: default :: Default"}[tr]
+                key = "%s::{%s for %s}" % (mod, full, ty)
+                it = idx.get(key)
+                if it is None or not any("automatically_derived" in norm(at) for at in it.attrs):
+                    raise GenError("lost anchor: %s no longer derives %s (trusted spec of the derived impl would be unfounded)" % (a[0], tr))
         if kind == "const":
             if arg not in idx or idx[arg].kind != "const":
                 raise GenError("lost anchor: const %s not found" % arg)
